@@ -17,7 +17,7 @@ import time
 from concurrent.futures import ThreadPoolExecutor
 
 ROOT = os.path.dirname(os.path.dirname(os.path.abspath(__file__)))
-WORK = os.path.join(ROOT, ".work")
+WORK = os.environ.get("VERIF_WORK") or os.path.join(ROOT, ".work")   # VERIF_WORK/VERIF_REPO: isolated runs against a scratch tree (seeded changes)
 COQ = os.path.join(ROOT, "coq")
 HARNESS_SRC = os.path.join(ROOT, "harness")
 BIN = os.path.join(WORK, "bin")
@@ -27,7 +27,7 @@ NCPU = os.cpu_count() or 4
 GOENV = dict(os.environ)
 GOENV.update({
     "GOFLAGS": "-mod=mod", "GOPROXY": "off", "GOSUMDB": "off", "GOTOOLCHAIN": "local",
-    "GOCACHE": os.path.join(WORK, "gocache"),
+    "GOCACHE": os.path.join(ROOT, ".work", "gocache"),      # shared by isolated runs (the go build cache is concurrency-safe)
 })
 
 FORBIDDEN = re.compile(
@@ -38,9 +38,10 @@ ALLOWED_AXIOMS = set()  # none is needed by this development; anything printed i
 
 
 class Lock:
-    def __init__(self, name):
-        os.makedirs(WORK, exist_ok=True)
-        self.path = os.path.join(WORK, name + ".lock")
+    def __init__(self, name, shared=False):
+        d = os.path.join(ROOT, ".work") if shared else WORK
+        os.makedirs(d, exist_ok=True)
+        self.path = os.path.join(d, name + ".lock")
 
     def __enter__(self):
         self.f = open(self.path, "w")
@@ -112,7 +113,7 @@ def strip_coq_comments(txt):
 
 def build_coq(timeout=1500):
     """full .vo build of the development (make is a no-op when fresh). Returns (ok, log)."""
-    with Lock("coq"):
+    with Lock("coq", shared=True):
         srcs = coq_sources()
         mk = os.path.join(COQ, "Makefile")
         stamp = os.path.join(COQ, ".filelist")
@@ -277,12 +278,19 @@ def build_go(timeout=900):
             return True, "up to date (source hash %s)" % fp[:12]
         if os.path.exists(stamp):
             os.remove(stamp)
-        shutil.copyfile(os.path.join(REPO, "go.sum"), os.path.join(HARNESS_SRC, "go.sum"))
-        write_harness_gomod()
+        # the harness is built from a copy of its sources next to a go.mod generated for the tree under test
+        hsrc = os.path.join(WORK, "hsrc")
+        shutil.rmtree(hsrc, ignore_errors=True)
+        os.makedirs(hsrc)
+        for f in os.listdir(HARNESS_SRC):
+            if f.endswith(".go"):
+                shutil.copyfile(os.path.join(HARNESS_SRC, f), os.path.join(hsrc, f))
+        shutil.copyfile(os.path.join(REPO, "go.sum"), os.path.join(hsrc, "go.sum"))
+        write_harness_gomod(hsrc)
         overlay = hook_overlay()
         ov = ["-overlay", overlay] if overlay else []
         rc, out = sh(["go", "build", "-tags", "verif"] + ov + ["-o", os.path.join(BIN, "harness"), "."],
-                     cwd=HARNESS_SRC, timeout=timeout, env=GOENV)
+                     cwd=hsrc, timeout=timeout, env=GOENV)
         if rc != 0:
             return False, "harness build failed:\n" + out
         rc, out2 = sh(["go", "build", "-tags", "verif"] + ov + ["-o", os.path.join(BIN, "taskctl"), "./cmd/taskctl"],
@@ -294,7 +302,7 @@ def build_go(timeout=900):
         return True, out + out2
 
 
-def write_harness_gomod():
+def write_harness_gomod(hsrc):
     """harness/go.mod = /repo's requirements + replace => /repo (regenerated so that it follows /repo)"""
     req = []
     txt = open(os.path.join(REPO, "go.mod")).read()
@@ -306,7 +314,7 @@ def write_harness_gomod():
              "require (", "\tgithub.com/taskctl/taskctl v0.0.0"]
     lines += ["\t" + r for r in req]
     lines += [")", "", "replace github.com/taskctl/taskctl => %s" % REPO, ""]
-    with open(os.path.join(HARNESS_SRC, "go.mod"), "w") as f:
+    with open(os.path.join(hsrc, "go.mod"), "w") as f:
         f.write("\n".join(lines))
 
 
